@@ -169,7 +169,7 @@ func init() {
 	}
 	registry["C12"] = func() Check {
 		return &SeqCheck{Prop: "C12",
-			Ideal: famFull(3), IdealDeep: famFull(4), IdealProps: []string{"P_C12"},
+			Ideal: famFull(3), IdealDeep: famFull(4), IdealProps: []string{"P_C12"}, Extra: fileCases,
 			GenQuick: famFull(2), GenThorough: famFull(4), SampleQuick: 60,
 			Sim: with(famFull(10), func(m *SeqModel) { m.MaxTasks = 3 }), SimNumQuick: 80, SimNumThorough: 3000}
 	}
